@@ -1074,6 +1074,7 @@ func runC17(prop string, res *Result, pool *DrvPool, r *Rng) {
 			res.Violation(Finding{Stream: "snapshot", What: "Snapshot.ToHTML failed: " + err.Error(), Op: op})
 			continue
 		}
+		wholeDoc(res, pool, "Snapshot.ToHTML", doc.Bytes(), f, ver, "", map[string]interface{}{"gs": gs})
 		if err := mkSnapshot(bgs, bf).ToHTML(&bdoc, ""); err != nil {
 			res.Violation(Finding{Stream: "snapshot", What: "Snapshot.ToHTML failed on the benign twin: " + err.Error(), Op: op})
 			continue
@@ -1146,6 +1147,14 @@ func runC17(prop string, res *Result, pool *DrvPool, r *Rng) {
 				res.Count("doc:aggregate-panicked")
 				continue
 			}
+			// the caller may reorder the buckets before rendering ("You can reorder at your
+			// choosing"): every bucket and frame must still reach the page, in the caller's order
+			if len(agg.Buckets) > 2 && r.Chance(1, 2) {
+				for j, k := range r.Perm(len(agg.Buckets)) {
+					agg.Buckets[j], agg.Buckets[k] = agg.Buckets[k], agg.Buckets[j]
+				}
+				res.Count("doc:aggregated-reordered")
+			}
 			mbs := mBuckets(agg.Buckets)
 			aop := map[string]interface{}{"op": "html.aggregated", "buckets": mbs, "ver": hb(ver)}
 			var adoc, abdoc bytes.Buffer
@@ -1153,6 +1162,7 @@ func runC17(prop string, res *Result, pool *DrvPool, r *Rng) {
 				res.Violation(Finding{Stream: "aggregated", What: fmt.Sprintf("Aggregated.ToHTML (level %d) failed: %v", li, err), Op: aop})
 				continue
 			}
+			wholeDoc(res, pool, "Aggregated.ToHTML", adoc.Bytes(), f, ver, "", map[string]interface{}{"buckets": mbs})
 			bb := &stack.Aggregated{Snapshot: mkSnapshot(bgs, bf)}
 			for j := range mbs {
 				t := mbs[j]
@@ -1206,6 +1216,72 @@ func runC17(prop string, res *Result, pool *DrvPool, r *Rng) {
 	for _, k := range ks {
 		res.CountN("payload:"+k, h.kinds[k])
 	}
+}
+
+// docOp builds the model request for the WHOLE document: the harness supplies what the
+// environment supplied to the real call (time as printed, toolchain version, GOMAXPROCS,
+// the favicon constant as it appears in the page) and the snapshot's metadata fields.
+func docOp(doc []byte, f snapFields, ver, footer string, body map[string]interface{}) (map[string]interface{}, bool) {
+	d := string(doc)
+	between := func(a, b string) (string, bool) {
+		i := strings.Index(d, a)
+		if i < 0 {
+			return "", false
+		}
+		j := strings.Index(d[i+len(a):], b)
+		if j < 0 {
+			return "", false
+		}
+		return d[i+len(a) : i+len(a)+j], true
+	}
+	fav, ok1 := between(`href="data:image/gif;base64,`, `"`)
+	now, ok2 := between("<li>Created on ", "</li>")
+	if !ok1 || !ok2 {
+		return nil, false
+	}
+	unesc := strings.NewReplacer("&#43;", "+")
+	var keys []string
+	for k := range f.LocalGomods {
+		keys = append(keys, k)
+	}
+	sort.Strings(keys)
+	mods := [][2]HB{}
+	for _, k := range keys {
+		mods = append(mods, [2]HB{hb(k), hb(f.LocalGomods[k])})
+	}
+	gps := []HB{}
+	for _, g := range f.LocalGOPATHs {
+		gps = append(gps, hb(g))
+	}
+	op := map[string]interface{}{"op": "html.doc", "ver": hb(ver), "favicon": hb(unesc.Replace(fav)), "now": hb(unesc.Replace(now)),
+		"gomaxprocs": runtime.GOMAXPROCS(0), "remoteGOROOT": hb(f.RemoteGOROOT), "localGOROOT": hb(f.LocalGOROOT),
+		"localGOPATHs": gps, "localGomods": mods, "footer": hb(footer)}
+	for k, v := range body {
+		op[k] = v
+	}
+	return op, true
+}
+
+// wholeDoc compares the complete document with the model's renderDoc.
+func wholeDoc(res *Result, pool *DrvPool, what string, doc []byte, f snapFields, ver, footer string, body map[string]interface{}) {
+	op, ok := docOp(doc, f, ver, footer, body)
+	if !ok {
+		res.Violation(Finding{Stream: what, What: "favicon link or creation time not found in the document", Op: body})
+		return
+	}
+	want := string(doc)
+	pool.Send(op, func(raw json.RawMessage) {
+		res.Trace()
+		var rep struct {
+			Err string `json:"err"`
+			Doc HB     `json:"doc"`
+		}
+		json.Unmarshal(raw, &rep)
+		if rep.Err != "" || rep.Doc.String() != want {
+			res.Disagree(Finding{Stream: "S17 whole document", What: "whole document of " + what + ": model and implementation differ " + rep.Err + " " + diffAt(rep.Doc.String(), want), Op: op})
+		}
+	})
+	res.Count("doc:whole-document-compared")
 }
 
 func diffAt(got, want string) string {
